@@ -428,8 +428,8 @@ class FieldWrapper(FieldType):
         return self.subfield.parse_query(fieldname, qstring, boost)
 
     def parse_range(self, fieldname, start, end, startexcl, endexcl, boost=1.0):
-        self.subfield.parse_range(fieldname, start, end, startexcl, endexcl,
-                                  boost)
+        return self.subfield.parse_range(fieldname, start, end, startexcl,
+                                         endexcl, boost)
 
     # Utility
 
